@@ -100,7 +100,8 @@ K1 == 64   K2 == 32   C0kib == 256   K3 == 4   C1 == 64
 ValUnits(vals) == Len(vals) + SumSeq([i \in 1..Len(vals) |-> Len(vals[i].v.b)])
 SetUnits(proto, st) ==
   1 + Len(st.pad) +
-  (CASE st.k = "data" /\ proto = "v9" -> Len(st.recs) + SumSeq([r \in 1..Len(st.recs) |-> ValUnits(st.recs[r])])
+  (CASE "nval" \in DOMAIN st -> st.nrec + st.nval + st.vbytes          \* summarised by the harness (light projection)
+     [] st.k = "data" /\ proto = "v9" -> Len(st.recs) + SumSeq([r \in 1..Len(st.recs) |-> ValUnits(st.recs[r])])
      [] st.k \in {"data", "odata"} /\ proto = "ipfix" -> Len(st.maps) + SumSeq([r \in 1..Len(st.maps) |-> ValUnits(st.maps[r])])
      [] st.k = "odata" -> Len(st.scope) + Len(st.opts) + SumSeq([i \in 1..Len(st.scope) |-> Len(st.scope[i].b)])
                           + SumSeq([i \in 1..Len(st.opts) |-> Len(st.opts[i].b)])
